@@ -25,7 +25,10 @@ def run(chk):
     cases = [(t, w) for t, w in cases if "\x00" not in t]
     lines_cur = [lib.req("accept", "cur", t) for t, _ in cases]
     impl, cur = lib.both(lines_cur, resume=True)
-    spec = lib.run_lines(lib.model_driver(), [lib.req("accept", "spec", t) for t, _ in cases])
+    # the specification side: the REVIEWED grammar (tools/ref/xml.json -> Gen/XmlGrammarRef.lean) with the repairs of the
+    # recorded findings; it does not move when the source moves, so a grammar change that lets more through shows up here
+    spec = lib.run_lines(lib.model_driver(), [lib.req("accept", "refspec", t) for t, _ in cases])
+    chk.cov["grammar_vs_reviewed_snapshot"] = [d[0] for d in lib.GRAMMAR_DIFFS["xml"]] or "identical"
     strict = lib.run_lines(lib.model_driver(), [lib.req("accept", "strict", t) for t, _ in cases])
     findings = {f["id"]: f for f in lib.load_findings("C02") if f["kind"] == "known"}
     hist = {}
@@ -51,6 +54,15 @@ def run(chk):
                 mfail.append((t, why, a, c, s))
         elif a != c:
             tdis.append((t, why, a, c, s))
+    refs = X.reference_stream(rng, 1200 if thorough else 300, 500 if thorough else 150)
+    for t, a, b in refs:
+        chk.count(["ref", t], nontrivial=b != "ok")
+        if a == "ok" and b != "ok":
+            mfail.append((t, "not derivable in the reviewed grammar (tools/ref/xml.json); productions that differ now: %s"
+                          % [d[0] for d in lib.GRAMMAR_DIFFS["xml"]], a, "-", b))
+        elif a != b and not (b == "ok" and a != "ok"):
+            tdis.append((t, "reference-stream", a, b, b))
+    chk.cov["reviewed_grammar_stream"] = "%d inputs, %d rejected by the reviewed grammar" % (len(refs), sum(1 for _, _, b in refs if b != "ok"))
     chk.cov["mutation_kinds"] = dict(sorted(hist.items()))
     chk.cov["inputs_rejected_by_spec_model"] = rejected_by_spec
     chk.cov["outcomes_impl"] = {k: impl.count(k) for k in sorted(set(impl))}
